@@ -343,11 +343,47 @@ def check_illformed(ctx, img, fam, fails):
     return False
 
 
+def far_layouts(ctx, rng, fails, full):
+    """admissible layouts whose metadata region lies at or beyond 4 GiB (the region-table offset is 64 bit).  The
+    streams are sparse: the zero filler is one shared chunk object, so several GiB cost milliseconds.  A handful
+    of chunkings each: every structure as its own chunk, 16 MiB and 1 MiB grids, a cut right before / after the
+    metadata region; observers polled on one of them."""
+    G32 = 1 << 32
+    M = 1 << 20
+    offs = [G32, G32 + M, G32 - M, G32 + M * rng.randrange(2, 3 * 4096)]
+    if full or not ctx.quick:
+        offs += [2 * G32, 2 * G32 + 7 * M, G32 + 5 * M, 1 << 36, (1 << 36) + M * rng.randrange(1, 1 << 16), 1 << 40]
+    for mo in offs:
+        size = rng.choice(EDGE64 + [rng.getrandbits(64), rng.getrandbits(40)])
+        nmeta = rng.choice([1, 5, 40])
+        stale = rng.getrandbits(40) if (mo % G32 >= 320 * G.K and rng.random() < 0.6) else None
+        sp = G.vhdx_far(size, mo, nmeta=nmeta, vidx=rng.randrange(nmeta), tail=rng.choice([0, 1, 5000]), stale=stale,
+                        item_off=rng.choice([None, G.K64]))
+        plans = ['extents', 'grid%d' % (16 << 20)] + (['grid%d' % M] if sp.total <= 8 * G32 else [])
+        plans += ['cut@%d' % (mo - 1), 'cut@%d' % (mo + 1)]
+        for k, tag in enumerate(plans):
+            cuts = sp.plan(tag)
+            ctx.evaluations += 1
+            ctx.count('search/far-layout/' + tag.split('@')[0])
+            q = insp_impl.poke if k == 0 else None
+            v, _ = G.sparse_run(sp, cuts, q, ctor=rng.choice(G.ctor_variants('vhdx')) if k == 1 else None)
+            got = G.vfield(v, 'vsize')
+            if got != str(size):
+                case = dict(sp.case(tag), wellformed=True, expected=str(size), poll='all' if q else None)
+                fails.append(Failure(case, {
+                    'kind': 'virtual-size-is-not-the-declared-size',
+                    'what': 'vhdx: virtual_size is %s, the image declares %s (well-formed, metadata region at file offset %d = 2^32%+d, '
+                            '%d-byte sparse stream, %d chunks "%s"; verdict %s)' % (got, size, mo, mo - G32, sp.total, len(cuts) + 1, tag, v)}))
+                break
+        if len(fails) >= 3:
+            return
+
+
 def search(ctx, seeds, full=False):
     rng = ctx.rng
     fails = []
     ctx._c07_full = full
-    for s in [s for s in seeds if s.get('kind') in ('insp', 'wrap')][:40]:
+    for s in [s for s in seeds if s.get('kind') in ('insp', 'wrap') and 'content' in s][:40]:
         # a disagreeing case carries no declared size: look for chunk-dependence of virtual_size on its bytes
         data = G.decode_content(s['content'])
         img = G.Img(s['fmt'], data, [64, 512, G.H, 256 * G.K], 'seed: ' + s.get('tag', ''), declared=s.get('declared'),
@@ -368,6 +404,9 @@ def search(ctx, seeds, full=False):
             check_illformed(ctx, img, fam, fails)
         if len(fails) >= 5:
             return fails
+    far_layouts(ctx, rng, fails, full)
+    if len(fails) >= 5:
+        return fails
     rounds = (2 if full else 1) if ctx.quick else (6 if full else 4)
     for _ in range(rounds):
         imgs = c07_images(ctx, rng, for_search=True)
@@ -451,6 +490,16 @@ def replay(ctx, payload):
         print('nothing to replay: this file names the obligation that no longer checks:')
         print(json.dumps(payload.get('no_longer_checks'), indent=1)[:3000])
         return 0
+    if case.get('kind') == 'sparse':
+        sp, cuts = G.sparse_of_case(case)
+        v, _ = G.sparse_run(sp, cuts, insp_impl.poke if case.get('poll') else None)
+        print('%s, sparse stream of %d bytes, non-zero extents at %s, chunk plan "%s" (%d chunks), layout %s'
+              % (sp.fmt, sp.total, [o for o, _ in sp.extents], case['plan'], len(cuts) + 1, sp.params))
+        print('  implementation:', v)
+        print('  model         : (not run: the driver materialises its input, %d bytes do not fit)' % sp.total)
+        got = G.vfield(v, 'vsize')
+        print('property oracle on the implementation: virtual_size %s, the image declares %s' % (got, case['expected']))
+        return 1 if got != case['expected'] else 0
     data = G.decode_content(case['content'])
     fmt = case['fmt']
     rc = 0
